@@ -132,7 +132,7 @@ def cases(ctx):
         progs.append(("generated", s, None))
     srcs = [s for _, s, _ in progs]
     lines = lang_lines(ctx, srcs)
-    return [Case(l, (t,), extra={"src": s, "expect_line": e}) for l, (t, s, e) in zip(lines, progs)]
+    return [Case(l, (t,), extra={"src": s, "expect_line": e}) for l, (t, s, e) in zip(lines, progs)] + core_cases(ctx)
 
 
 def judge(c):
